@@ -9,6 +9,8 @@ import (
 	"encoding/json"
 	"fmt"
 	"math"
+	"runtime"
+	"sync"
 
 	tally "github.com/uber-go/tally/v4"
 )
@@ -225,6 +227,20 @@ func init() {
 			}
 		}
 		if ctx.Replay != nil {
+			var probe struct {
+				Stress bool `json:"stress"`
+				Cached bool `json:"cached"`
+			}
+			if json.Unmarshal(ctx.Replay, &probe) == nil && probe.Stress {
+				for k := 0; k < 200; k++ {
+					if f := c01Stress(uint64(k), probe.Cached); f != "" {
+						ctx.Case(probe, "", "uncontrolled-concurrent-passes", "")
+						ctx.Fail("deliveries_add_up_to_increments", f, probe, nil)
+						return
+					}
+				}
+				return
+			}
 			var c c01Case
 			if err := json.Unmarshal(ctx.Replay, &c); err != nil {
 				fatal(err)
@@ -295,5 +311,87 @@ func init() {
 			one(&c)
 		}
 		ctx.Res.Schedules = nsched
+		// uncontrolled: really concurrent report passes (as the ticker, Close and a re-request of a
+		// closed scope can be) racing increments; only the direct predicate applies here
+		rounds := ctx.N(40, 1500)
+		bad := 0
+		for k := 0; k < rounds; k++ {
+			if f := c01Stress(ctx.R.U64(), k%2 == 1); f != "" {
+				bad++
+				if bad == 1 {
+					ctx.Fail("deliveries_add_up_to_increments", f, map[string]interface{}{"stress": true, "cached": k%2 == 1}, nil)
+				}
+			}
+			ctx.Res.Evaluations++
+			ctx.Res.Histogram["uncontrolled-concurrent-passes"]++
+		}
+		ctx.Res.Extra["stress_rounds_failed"] = bad
 	}
+}
+
+// c01Stress: two incrementing goroutines and three goroutines running report passes at once.
+func c01Stress(seed uint64, cached bool) string {
+	log := &Log{}
+	opts := tally.ScopeOptions{OmitCardinalityMetrics: true}
+	if cached {
+		opts.CachedReporter = &RecCached{L: log, Caps: caps{true, true}}
+	} else {
+		opts.Reporter = &RecReporter{L: log, Caps: caps{true, true}}
+	}
+	scope, closer := tally.VerifNewRootScope(opts, 0, 2)
+	ctr := scope.Tagged(map[string]string{"a": "b"}).Counter("c")
+	const n = 1500
+	var wg, rg sync.WaitGroup
+	stop := make(chan struct{})
+	for g := 0; g < 2; g++ {
+		wg.Add(1)
+		go func() {
+			defer wg.Done()
+			for i := 0; i < n; i++ {
+				ctr.Inc(1)
+				if i%64 == 0 {
+					runtime.Gosched()
+				}
+			}
+		}()
+	}
+	for g := 0; g < 3; g++ {
+		rg.Add(1)
+		go func() {
+			defer rg.Done()
+			for {
+				select {
+				case <-stop:
+					return
+				default:
+				}
+				tally.VerifReportOnce(scope)
+			}
+		}()
+	}
+	wg.Wait()
+	close(stop)
+	rg.Wait()
+	tally.VerifReportOnce(scope)
+	closer.Close()
+	var sum int64
+	for _, e := range log.Snapshot() {
+		var d int64
+		switch e.K {
+		case 1:
+			d = e.I[0]
+		case 21:
+			d = e.I[1]
+		default:
+			continue
+		}
+		if d <= 0 {
+			return fmt.Sprintf("concurrent report passes: delta %d delivered although every increment is +1", d)
+		}
+		sum += d
+	}
+	if sum != 2*n {
+		return fmt.Sprintf("concurrent report passes: %d increments of +1 were made, the deliveries add up to %d", 2*n, sum)
+	}
+	return ""
 }
